@@ -268,6 +268,21 @@ def round_trip(rec, label, xml_text, scratch, formats=("xml", "mediawiki", "tsv"
                 if not same(R3, S) or diff:
                     rec.violation(f"C05:{kind}:tsv-resave-into-same-directory:reloaded-differs", first_merged=first_merged,
                                   detail=diff or "eq-only", **where)
+        # the directory given with a trailing separator
+        if "tsv" in formats:
+            rec.n("evaluations")
+            d = os.path.join(scratch, "tsv4") + os.sep
+            shutil.rmtree(d, ignore_errors=True)
+            try:
+                S.save_as_dataframes(d, save_merged=True)
+                R4 = load_schema(d)
+                diff = dump_diff(dS, dump(R4)) or dump_diff(dump(R4), dS)
+                if not same(R4, S) or diff:
+                    rec.violation(f"C05:{kind}:tsv-directory-with-trailing-separator:reloaded-differs", detail=diff or "eq-only",
+                                  **where)
+            except Exception as e:
+                rec.violation(f"C05:{kind}:tsv-directory-with-trailing-separator:raises:{type(e).__name__}", error=repr(e)[:300],
+                              **where)
     return S
 
 
